@@ -192,7 +192,8 @@ func (m *ModelServer) AcknowledgePublication(_ context.Context, request *traits.
 		}),
 	)
 
-	if err == alreadyAcknowledged && request.AllowAcknowledged {
+	// (the collection decorates the error it passes on, so compare by what the check recorded, not by identity)
+	if err != nil && acknowledgedPub != nil && request.AllowAcknowledged {
 		return acknowledgedPub, nil
 	}
 
